@@ -29,8 +29,18 @@ func TestC04ExpiryVsEjectionRace(t *testing.T) {
 	}
 	defer lb.Stop()
 	b := lb.VerifBackends()[0]
+	var cur atomic.Int32
+	wd := lab.StartWatchdog(t.Name(), "expiry-vs-ejection-race", lab.NoProgress, func() any { return map[string]int32{"expiry_checkers": cur.Load()} })
+	defer wd.Stop()
+	progress := time.Now()
 	for r := 0; r < rounds; r++ {
+		if time.Since(progress) > 5*time.Second { // re-arm: the watchdog guards progress, not the total run time
+			wd.Stop()
+			wd = lab.StartWatchdog(t.Name(), "expiry-vs-ejection-race", lab.NoProgress, func() any { return map[string]int32{"expiry_checkers": cur.Load()} })
+			progress = time.Now()
+		}
 		checkers := 1 + (r+lab.Shard())%8
+		cur.Store(int32(checkers))
 		lb.MarkBackendUnhealthy(b, time.Nanosecond)
 		time.Sleep(time.Microsecond) // real time: the 1 ns window is over
 		var ready, goFlag int32
